@@ -100,8 +100,20 @@ def helper_templates(rng):
     outer = Func("outer", [(FLOAT, "x")], FLOAT, Block([Return(B("*", Call("mid", [x], FLOAT, mid), F(2.0)))]), False)
     bumpg = Func("bumpg", [(INT, "n")], INT, Block([ExprStmt(Assign("=", gi, B("+", gi, n))), Return(gi)]), False)
     viab = Func("viab", [(INT, "n")], INT, Block([Return(B("+", Call("bumpg", [n], INT, bumpg), I(100)))]), False)
-    helpers = [h_put, h_swz, h_row, h_scl, inner, mid, outer, bumpg, viab]
+    # helpers that modify their own scalar parameters, called with literal arguments only (the call site runs again on the
+    # next invocation and on other VMs of the program: it must start from the literals every time)
+    dec = Func("dec", [(INT, "n")], INT, Block([ExprStmt(Assign("=", n, B("-", n, I(1)))), ExprStmt(Assign("=", gi, B("+", gi, n))), Return(n)]), False)
+    cnt = Func("cnt", [(INT, "n"), (FLOAT, "x")], FLOAT, Block([ExprStmt(Assign("+=", n, I(2))), ExprStmt(Assign("=", x, B("*", x, F(0.5)))),
+                                                              Return(B("+", B("*", n, F(10.0)), x))]), False)
+    helpers = [h_put, h_swz, h_row, h_scl, inner, mid, outer, bumpg, viab, dec, cnt]
     exported = [
+        fn("advance", [], INT, [Return(B("+", B("*", Call("dec", [I(3)], INT, dec), I(1000)), gi))]),
+        fn("lit_call", [(INT, "n")], FLOAT, [Return(B("+", B("+", Call("cnt", [I(3), F(8.0)], FLOAT, cnt), Call("cnt", [I(3), F(8.0)], FLOAT, cnt)), n))]),
+        # store to a global, a call that changes the same global, the global read again — all in one straight line
+        fn("seq_store_call_load", [(INT, "n")], INT, [ExprStmt(Assign("=", gi, n)), ExprStmt(Call("bumpg", [I(1)], INT, bumpg)), ExprStmt(Assign("=", gf, gi)),
+                                                     Return(B("*", gi, I(10)))]),
+        fn("seq_store_chain_load", [(INT, "n")], FLOAT, [ExprStmt(Assign("=", gi, n)), Decl(INT, "t", Call("viab", [n], INT, viab)), ExprStmt(Assign("=", gf, B("+", gi, V("t", INT)))),
+                                                        Return(gf)]),
         fn("put_via", [(INT, "i"), (FLOAT, "x")], FLOAT, [Decl(F3, "r", Call("h_put", [gv, i, x], F3, h_put)),
                                                          Return(B("+", B("*", Index(V("r", F3), I(0), FLOAT), F(100.0)), Index(gv, I(0), FLOAT)))]),
         fn("swz_via", [(FLOAT, "x")], FLOAT, [Return(B("+", Call("h_swz", [gv, x], FLOAT, h_swz), Swizzle(gv, "x")))]),
